@@ -92,7 +92,7 @@ func c18Find(ws []c18Window, t time.Time) int {
 	return -1
 }
 
-var c18Zones = []string{"UTC", "America/New_York", "Europe/London", "Asia/Kolkata", "Australia/Lord_Howe"}
+var c18Zones = []string{"UTC", "America/New_York", "Europe/London", "Asia/Kolkata", "Australia/Lord_Howe", "Etc/GMT+3", "Etc/GMT-11"}
 
 func c18Build(c c18Cfg) (*quickfix.VerifTimeRange, *time.Location, error) {
 	loc, err := time.LoadLocation(c.Zone)
@@ -231,7 +231,7 @@ func runC18(c *core.Ctx) {
 	} else {
 		c.SetDeadline(40 * time.Minute)
 	}
-	c.SetRule("start/end from 8 times of day (all 64 ordered pairs incl. equal) x weekday sets (quick: none, each single day, Mon-Fri, Sat+Sun; thorough: all 128) or all 49 StartDay/EndDay pairs x 5 time zones (incl. DST and a 30-minute DST zone) x built by constructor and by the settings path; IsInRange on a 30-minute grid (offset 7 min) over 5 weeks containing a DST transition of each zone; IsInSameRange on all pairs of a 3-hour grid; oracle = explicit enumeration of the windows as absolute intervals")
+	c.SetRule("start/end from 8 times of day (all 64 ordered pairs incl. equal) x weekday sets (quick: none, each single day, Mon-Fri, Sat+Sun; thorough: all 128) or all 49 StartDay/EndDay pairs x 7 time zones (incl. DST, a 30-minute DST zone and two POSIX-signed Etc/GMT zones) x built by constructor and by the settings path; IsInRange on a 30-minute grid (offset 7 min) over 5 weeks containing a DST transition of each zone; IsInSameRange on all pairs of a 3-hour grid; oracle = explicit enumeration of the windows as absolute intervals")
 	c.Assume("instants within 4 h of a daylight-saving transition are excluded; window edges never fall into a transition hour with the chosen times",
 		"evaluated at least 7 minutes away from every window edge", "tz data from Go's embedded time/tzdata")
 	tods := [][3]int{{0, 0, 0}, {0, 0, 1}, {6, 0, 0}, {9, 30, 0}, {12, 0, 0}, {17, 0, 0}, {22, 0, 0}, {23, 59, 59}}
